@@ -1074,7 +1074,7 @@ class Event(Boolean):
     # _autotrigger_value specifies the value used to set the parameter
     # to when the parameter is supplied to the trigger method. This
     # value change is then what triggers the watcher callbacks.
-    __slots__ = ['_autotrigger_value', '_mode', '_autotrigger_reset_value']
+    __slots__ = ['_autotrigger_value', '_mode', '_autotrigger_reset_value', '_installs']
 
     @typing.overload
     def __init__(
@@ -1091,6 +1091,7 @@ class Event(Boolean):
         self._autotrigger_value = True
         self._autotrigger_reset_value = False
         self._mode = 'set-reset'
+        self._installs = 0
         # Mode can be one of 'set', 'set-reset' or 'reset'
 
         # 'set' is normal Boolean parameter behavior when set with a value.
@@ -1116,20 +1117,30 @@ class Event(Boolean):
             obj._param__private.values[self.name] = val
         self._post_setter(obj, val)
 
+    def _post_setter(self, obj, val):
+        # (called by Parameter.__set__ right after a value has been stored)
+        self._installs += 1
+        super()._post_setter(obj, val)
+
+    def __getstate__(self):
+        state = super().__getstate__()
+        # the dispatch mode belongs to the live object (an update() or
+        # trigger() in progress), not to a copy of it
+        state['_mode'] = 'set-reset'
+        state['_installs'] = 0
+        return state
+
     @instance_descriptor
     def __set__(self, obj, val):
         installed = True
+        installs = self._installs
         try:
             if self._mode in ['set-reset', 'set']:
                 super().__set__(obj, val)
         except BaseException:
             # raised by a watcher, or was the assignment itself refused
             # (then nothing was installed and there is nothing to reset)?
-            if obj is None:
-                current = self.default
-            else:
-                current = obj._param__private.values.get(self.name, self.default)
-            installed = current is val
+            installed = self._installs != installs
             raise
         finally:
             # also when a watcher raises: an Event always resets itself
